@@ -9,6 +9,7 @@ from typing import Sequence  # noqa: F401
 import argparse  # noqa: F401
 import io  # noqa: F401
 import pathlib  # noqa: F401
+import mypy.build as mypy_build  # noqa: F401
 import mypy.nodes as mp_nodes  # noqa: F401
 import mypy.types as mp_types  # noqa: F401
 from mypy.nodes import ArgKind  # noqa: F401
@@ -21,6 +22,8 @@ SCHEMA = {
     "mypy.nodes.Argument": {"variable": "mp_nodes.Var", "kind": "ArgKind", "pos_only": "bool",
                             "initializer": "mp_nodes.Expression | None", "type_annotation": "mp_types.Type | None"},
     "mypy.nodes.NameExpr": {"name": "str", "fullname": "str"},
+    "mypy.build.BuildResult": {"graph": "dict[str, mypy_build.State]"},
+    "mypy.build.State": {"tree": "mp_nodes.MypyFile | None"},
     "mypy.nodes.MypyFile": {"name": "str", "fullname": "str", "path": "str"},
     "mypy.nodes.IntExpr": {"value": "int"},
     "mypy.nodes.StrExpr": {"value": "str"},
